@@ -12,7 +12,7 @@ func init() {
 	register(&propDef{
 		id: "C40", title: "CRDT values survive encoding",
 		technique: "codec-pair field coverage over EncodeCRDT/DecodeCRDT and the crdt state exporters/importers, type-switch exhaustiveness over ReplicatedData implementors, oneof produced/handled pairing, enum offset inverse and range check for CRDT keys",
-		explanation: "Decides writer/reader agreement for the CRDT wire form: (1) EncodeCRDT's type switch has a case for every ReplicatedData implementor of package crdt, each case produces a distinct CRDTData oneof wrapper, DecodeCRDT has a case for every wrapper, and the decode case for the wrapper produced from type T yields T again; (2) every data field of CRDTData, GCounterData, PNCounterData, FlagData, LWWRegisterData, ORSetData (+Entry, Dot), MVRegisterData (+Entry), ORMapData (+Entry) and CRDTKey is written on the encode side and read on the decode side; (3) every state field of the seven CRDT structs (value and causal metadata: state maps, clocks, dots, timestamps, node ids; transient delta/dirty bookkeeping exempt) is read on the encode path (through State/RawState exporters) and written on the decode path (through the FromState importers), and every field of the exchange structs Entry, Dot, MVEntry, ORMapRawState is produced and consumed on both sides; (4) CRDT keys: the encoder's enum offset equals the decoder's, the decoder's accepted range is exactly the image of the DataType constants, and proto and domain enum names agree position by position. Equality of decoded and original values (serializer round trip of any-typed payloads, map iteration) is NOT decided.",
+		explanation: "Decides writer/reader agreement for the CRDT wire form: (1) EncodeCRDT's type switch has a case for every ReplicatedData implementor of package crdt, each case produces a distinct CRDTData oneof wrapper, DecodeCRDT has a case for every wrapper, and the decode case for the wrapper produced from type T yields T again; (2) every data field of CRDTData, GCounterData, PNCounterData, FlagData, LWWRegisterData, ORSetData (+Entry, Dot), MVRegisterData (+Entry), ORMapData (+Entry) and CRDTKey is written on the encode side and read on the decode side; (3) every state field of the seven CRDT structs (value and causal metadata: state maps, clocks, dots, timestamps, node ids; transient delta/dirty bookkeeping exempt) is read on the encode path (through State/RawState exporters) and written on the decode path (through the FromState importers), and every field of the exchange structs Entry, Dot, MVEntry, ORMapRawState is produced and consumed on both sides; (4) CRDT keys: the encoder's enum offset equals the decoder's, the decoder's accepted range is exactly the image of the DataType constants, and proto and domain enum names agree position by position. Equality of decoded and original values (serializer round trip of any-typed payloads, map iteration) is NOT decided. Added after seed C40a: a successful decode has read the clock unless the message that carries it is absent.",
 		assumptions: []string{"the configured remote.Serializer round-trips element/register payloads (C25)", "protobuf marshalling itself"},
 		minObl:     86,
 		run:        runC40,
